@@ -10,6 +10,9 @@
   *non-commuting* mixed pairs (irrational spectra).  On those the check runs the direct oracle only.
 -/
 import GraphiqModel.Proofs.DMSem
+import GraphiqModel.Proofs.C17Bridge
+import GraphiqModel.Proofs.C17BridgeUhlmann
+import GraphiqModel.Proofs.C17BridgeStab
 namespace Graphiq.C17
 open Graphiq Graphiq.DM
 
@@ -109,6 +112,17 @@ theorem commuting_trace_distance_is_metric {p q r : ι → ℝ} (hp : IsProb p) 
 theorem commuting_fuchs_van_de_graaf {p q : ι → ℝ} (hp : IsProb p) (hq : IsProb q) :
     1 - Real.sqrt (F p q) ≤ T p q ∧ T p q ≤ Real.sqrt (1 - F p q) := fuchs_van_de_graaf hp hq
 
+/-- **The closed forms *are* the Uhlmann fidelity and the trace distance on commuting pairs** (any dimension): for
+    `ρ = U diag(p) U†`, `σ = U diag(q) U†` with `U` unitary and `p, q ≥ 0`, the Uhlmann fidelity `(tr √(√ρ σ √ρ))²` and the
+    trace distance `½ tr √((ρ−σ)†(ρ−σ))` — `√` the positive semidefinite square root of Mathlib (`CFC.sqrt`) — equal
+    `F p q = (Σ √(p_i q_i))²` and `T p q = ½ Σ |p_i − q_i|`.  (Formerly cited as textbook mathematics.)  Together with the
+    three theorems above: on commuting pairs fidelity and trace distance have every property asked of them. -/
+theorem commuting_closed_forms_are_uhlmann_and_trace_distance [DecidableEq ι] (U : Matrix ι ι ℂ)
+    (hU : U.conjTranspose * U = 1) (p q : ι → ℝ) (hp : ∀ i, 0 ≤ p i) (hq : ∀ i, 0 ≤ q i) :
+    C17B.uhlmann (C17B.conjDiag U p) (C17B.conjDiag U q) = ((F p q : ℝ) : ℂ) ∧
+    C17B.traceDist (C17B.conjDiag U p) (C17B.conjDiag U q) = ((T p q : ℝ) : ℂ) :=
+  ⟨C17B.uhlmann_commuting U hU p q hp hq, C17B.traceDist_commuting U hU p q⟩
+
 /-- the rational numbers the driver computes for a commuting pair (`dm.comm`) are these real quantities:
     eigenvalues `a_i²`, `b_i²` with `a_i, b_i ≥ 0` rational -/
 theorem model_closed_forms_are_F_and_T (d : Nat) (a b : Fin d → Rat) (ha : ∀ i, 0 ≤ a i) (hb : ∀ i, 0 ≤ b i) :
@@ -123,6 +137,22 @@ theorem model_closed_forms_are_F_and_T (d : Nat) (a b : Fin d → Rat) (ha : ∀
 example : IsProb (fun _ : Fin 2 => (1 / 2 : ℝ)) := ⟨fun _ => by norm_num, by simp⟩
 end commuting
 
+open scoped MatrixOrder ComplexOrder in
+/-- two clauses of the general statement below (any dimension, Mathlib's `CFC.sqrt`): the
+    Uhlmann fidelity is a nonnegative real number, and `F(ρ, ρ) = (tr ρ)²` — 1 for every density matrix. -/
+theorem uhlmann_nonneg_and_self {ι : Type} [Fintype ι] [DecidableEq ι] (ρ σ : Matrix ι ι ℂ) (hρ : ρ.PosSemidef) :
+    0 ≤ C17B.uhlmann ρ σ ∧ C17B.uhlmann ρ ρ = (Matrix.trace ρ) ^ 2 :=
+  ⟨C17B.uhlmann_nonneg ρ σ, C17B.uhlmann_self ρ hρ⟩
+
+open scoped MatrixOrder ComplexOrder in
+/-- **The Uhlmann fidelity is symmetric** (any dimension, arbitrary — also non-commuting — positive semidefinite `ρ`, `σ`):
+    `(tr √(√ρ σ √ρ))² = (tr √(√σ ρ √σ))²`.  With `A = √ρ`, `B = √σ` the two matrices under the root are `(AB)(AB)†` and
+    `(AB)†(AB)`, which have the same characteristic polynomial, hence the same eigenvalues, and the trace of the positive
+    square root is the sum of the square roots of the eigenvalues. -/
+theorem uhlmann_symmetric {ι : Type} [Fintype ι] [DecidableEq ι] (ρ σ : Matrix ι ι ℂ) (hρ : ρ.PosSemidef)
+    (hσ : σ.PosSemidef) : C17B.uhlmann ρ σ = C17B.uhlmann σ ρ :=
+  C17B.uhlmann_symm ρ σ hρ hσ
+
 /-- the full statement for arbitrary (non-commuting) density matrices, kept visible.  It is **not expressible** in the
     exact model (matrix square roots of irrational spectra) and is not proved: `uhlmann ρ σ` stands for
     `(tr √(√ρ σ √ρ))²`, `tnorm` for the trace norm. -/
@@ -134,17 +164,122 @@ def fidelity_and_trace_distance_statement (uhlmann tdist : Mat → Mat → ℝ) 
 
 /-! ## (iv) `Infidelity` across representations -/
 
-/-- **Partial** (hypotheses = the facts "ρ(T) is a pure density matrix" and "the overlap lies in [0,1]", which hold for every
-    valid tableau by the cited tensor-lifting argument and are evaluated by the driver on every correspondence input; the
-    sign hypothesis is the region outside known finding D9).  With them, `Infidelity` returns the same value whether target
-    and state are held as tableaux, both as matrices, or target as matrix and state as tableau. -/
-theorem infidelity_representation_independent_partial (tt ts : Tab)
+/-- conditional form, as proved before the bridge to the Hilbert-space model existed: the four hypotheses `hdt hds hp hov` are
+    now theorems (`stabilizer_density_is_pure_density_matrix`, `stab_overlap_in_unit_interval`); see
+    `infidelity_representation_independent` -/
+theorem infidelity_representation_independent_of_facts (tt ts : Tab)
     (hsign : ∀ k, k < ts.n → (ts.row (k + ts.n)).r = false)
     (hdt : isDensityMatrix (stabilizerDensity tt) = true) (hds : isDensityMatrix (stabilizerDensity ts) = true)
     (hp : isPure (stabilizerDensity tt) = true) (hov : 0 ≤ stabOverlap tt ts ∧ stabOverlap tt ts ≤ 1) :
     infidelity stabOverlap (.dm (stabilizerDensity tt)) (.dm (stabilizerDensity ts)) = infidelity stabOverlap (.s tt) (.s ts) ∧
     infidelity stabOverlap (.dm (stabilizerDensity tt)) (.s ts) = infidelity stabOverlap (.s tt) (.s ts) :=
   infidelity_rep_independent tt ts hsign hdt hds hp hov
+
+/-- **The exact matrix of a stabilizer state is a pure density matrix for the code's own tests** (every n, every valid
+    Clifford tableau): `stabilizerDensity t = ∏_k (I + (−1)^{r_k} g_k)/2`, computed in ℚ[i] as the Python computes it in
+    floating point, passes `is_density_matrix` (Hermitian, positive semidefinite by the exact `LDL†` test, trace 1) and
+    `is_pure` (`tr ρ² = 1`).  Proof: the matrix *represents* (`Hilbert.Rep`, Proofs/HilbertBridge*.lean) the Mathlib matrix
+    `Hilbert.rho`, which is a Hermitian projector of trace 1 (C07); the exact PSD test accepts every representation of a
+    positive semidefinite matrix (`C17B.psdElim_complete`: leading entry real ≥ 0, zero pivot ⇒ zero row, Schur
+    complement PSD). -/
+theorem stabilizer_density_is_pure_density_matrix (t : Tab) (hv : t.isSymplectic = true) :
+    isDensityMatrix (stabilizerDensity t) = true ∧ isPure (stabilizerDensity t) = true :=
+  have hv' := (Tab.isSymplectic_iff t).1 hv
+  ⟨C17B.stabilizerDensity_isDensityMatrix t hv', C17B.stabilizerDensity_isPure t hv'⟩
+
+open scoped ComplexOrder in
+/-- **The model's `is_psd` decides positive semidefiniteness** (every size `2^n`): an exact matrix over ℚ[i] that represents
+    the complex matrix `M` (`Hilbert.Rep`: same entries, basis strings ↔ indices) passes the Hermitian check plus the symmetric
+    `LDL†` elimination **iff** `M` is Hermitian positive semidefinite (Mathlib's `Matrix.PosSemidef`).  Completeness
+    (`psdElim_complete`): leading entry real ≥ 0, a zero pivot forces a zero row, the Schur complement is PSD.  Soundness
+    (`psdElim_sound`): completing the square, `Q(v) = d·|v_k + S/d|² + Q'(v)`.  The code's `is_psd` runs a floating-point
+    Cholesky of `ρ + 1e-15·I`; this is the property that call approximates. -/
+theorem exact_psd_test_correct {n : Nat} (m : Mat) (M : Hilbert.DMat n) (hm : Hilbert.Rep n m M) :
+    isPsd m = true ↔ M.PosSemidef :=
+  C17B.isPsd_rep_iff hm
+
+/-- **`stabOverlap` — the specification of the stabilizer fidelity used in this file — is the value C05's model of
+    `inner_product` reports** (every n): `tr(ρ_a ρ_b)` computed in ℚ[i] equals 0 when `inner_product` returns 0 and `2^{-e}`
+    when it returns `2^{-e/2}`. -/
+theorem stab_overlap_is_stabilizer_fidelity (a b : Tab) (r : Option Nat) (ga : (STab.ofTab a).Good)
+    (gb : (STab.ofTab b).Good) (h : STab.innerProduct a b = .ok r) :
+    stabOverlap a b = (match r with | none => 0 | some e => (1 / 2 : Rat) ^ e) := by
+  rw [C17B.stabOverlap_eq a b r ga gb h]
+  cases r <;> rfl
+
+/-- the overlap of two valid tableaux of equal size lies in `[0,1]` -/
+theorem stab_overlap_in_unit_interval (a b : Tab) (ha : a.isSymplectic = true) (hb : b.isSymplectic = true)
+    (hn : a.n = b.n) : 0 ≤ stabOverlap a b ∧ stabOverlap a b ≤ 1 :=
+  C17B.stabOverlap_range a b ((Tab.isSymplectic_iff a).1 ha) ((Tab.isSymplectic_iff b).1 hb) hn
+
+/-- **The two backends compute the same fidelity on stabilizer states** (every n): the density-matrix `fidelity` of the two
+    exact matrices takes its pure-state branch and returns exactly `tr(ρ_a ρ_b)` — no clipping occurs — which is the value
+    of the stabilizer backend's `fidelity`. -/
+theorem dm_fidelity_of_stabilizer_states (a b : Tab) (ha : a.isSymplectic = true) (hb : b.isSymplectic = true)
+    (hn : a.n = b.n) :
+    fidelity (stabilizerDensity a) (stabilizerDensity b) = .ok (.val (stabOverlap a b)) := by
+  have da := stabilizer_density_is_pure_density_matrix a ha
+  have db := stabilizer_density_is_pure_density_matrix b hb
+  rw [fidelity_pure_branch _ _ da.1 db.1 (Or.inl da.2)]
+  have := stab_overlap_in_unit_interval a b ha hb hn
+  show Except.ok (FidOut.val (clip01 (stabOverlap a b))) = _
+  rw [clip01_id _ this.1 this.2]
+
+/-- **… and that value is `|⟨ψ_a|ψ_b⟩|²`** (every n, valid tableaux of equal size): there are unit vectors `ψ_a`, `ψ_b` with
+    `ρ_a = |ψ_a⟩⟨ψ_a|`, `ρ_b = |ψ_b⟩⟨ψ_b|` (`Hilbert.tabRho` is the complex matrix that `stabilizerDensity` represents) whose
+    squared inner product is the exact rational overlap — the quantity both backends return as the fidelity. -/
+theorem stabilizer_fidelity_is_squared_inner_product (a b : Tab) (ha : a.isSymplectic = true) (hb : b.isSymplectic = true)
+    (hn : a.n = b.n) :
+    ∃ ψa ψb : Hilbert.Bits a.n → ℂ,
+      (∑ x, star (ψa x) * ψa x = 1) ∧ (∑ x, star (ψb x) * ψb x = 1) ∧
+      (∀ x y, Hilbert.tabRho a.n a x y = ψa x * star (ψa y)) ∧ (∀ x y, Hilbert.tabRho a.n b x y = ψb x * star (ψb y)) ∧
+      ((stabOverlap a b : Rat) : ℂ) = (∑ x, star (ψa x) * ψb x) * star (∑ x, star (ψa x) * ψb x) :=
+  C17B.stabOverlap_inner a b ((Tab.isSymplectic_iff a).1 ha) ((Tab.isSymplectic_iff b).1 hb) hn
+
+open scoped MatrixOrder ComplexOrder in
+/-- **The pure-state shortcut of `fidelity` is the Uhlmann fidelity** (any dimension): for a unit vector `ψ` and a
+    positive semidefinite `σ`, the value `tr(ρσ)` that the code returns when one argument is pure equals
+    `(tr √(√ρ σ √ρ))²` — with the pure state `ρ = |ψ⟩⟨ψ|` in either argument position (`√` = Mathlib's `CFC.sqrt`). -/
+theorem pure_state_shortcut_is_uhlmann {ι : Type} [Fintype ι] [DecidableEq ι] (ψ : ι → ℂ)
+    (hψ : dotProduct (star ψ) ψ = 1) (σ : Matrix ι ι ℂ) (hσ : σ.PosSemidef) :
+    C17B.uhlmann (C17B.ketBra ψ) σ = Matrix.trace (C17B.ketBra ψ * σ) ∧
+    C17B.uhlmann σ (C17B.ketBra ψ) = Matrix.trace (σ * C17B.ketBra ψ) :=
+  ⟨C17B.uhlmann_pure_left ψ hψ σ hσ, C17B.uhlmann_pure_right ψ σ hσ⟩
+
+open scoped MatrixOrder ComplexOrder in
+/-- **The model's `fidelity` returns the Uhlmann fidelity on its pure branch** (every n): if the first argument represents a
+    pure state `|ψ⟩⟨ψ|` (`ψ` a unit vector) and the second a density matrix (positive semidefinite, trace 1), both arguments
+    pass `is_density_matrix`, the first passes `is_pure`, the value `Re tr(ρσ)` lies in `[0,1]` (so `clip` changes nothing)
+    and it equals `(tr √(√ρ σ √ρ))²`. -/
+theorem dm_fidelity_pure_branch_is_uhlmann {n : Nat} (m m' : Mat) (ψ : Hilbert.Bits n → ℂ) (M' : Hilbert.DMat n)
+    (hψ : dotProduct (star ψ) ψ = 1) (hm : Hilbert.Rep n m (C17B.ketBra ψ)) (hm' : Hilbert.Rep n m' M')
+    (hM' : M'.PosSemidef) (ht : Matrix.trace M' = 1) :
+    ∃ q : Rat, fidelity m m' = .ok (.val q) ∧ ((q : ℝ) : ℂ) = C17B.uhlmann (C17B.ketBra ψ) M' :=
+  C17B.fidelity_pure_rep ψ M' hψ hm hm' hM' ht
+
+/-- **The fidelity both backends report for two stabilizer states is their Uhlmann fidelity** (every n, valid tableaux of
+    equal size): `(tr √(√ρ_a ρ_b √ρ_a))² = stabOverlap a b`, where `ρ = Hilbert.tabRho` is the complex matrix the exact
+    `stabilizerDensity` represents. -/
+theorem stabilizer_fidelity_is_uhlmann (a b : Tab) (ha : a.isSymplectic = true) (hb : b.isSymplectic = true)
+    (hn : a.n = b.n) :
+    C17B.uhlmann (Hilbert.tabRho a.n a) (Hilbert.tabRho a.n b) = ((stabOverlap a b : Rat) : ℂ) :=
+  C17B.uhlmann_stabilizer a b ((Tab.isSymplectic_iff a).1 ha) ((Tab.isSymplectic_iff b).1 hb) hn
+
+/-- **`Infidelity` agrees across representations** (every n, all valid tableaux of equal size): it returns the same value
+    whether target and state are held as tableaux or both as matrices — unconditionally — and also with the target as a
+    matrix and the state as a tableau **provided the state's generators carry no sign** (the region outside known finding
+    D9: `_stabilizer_to_density_pure` ignores the sign vector, `d9_sign_vector_ignored`). -/
+theorem infidelity_representation_independent (tt ts : Tab) (hn : tt.n = ts.n) (hvt : tt.isSymplectic = true)
+    (hvs : ts.isSymplectic = true) :
+    infidelity stabOverlap (.dm (stabilizerDensity tt)) (.dm (stabilizerDensity ts)) = infidelity stabOverlap (.s tt) (.s ts) ∧
+    ((∀ k, k < ts.n → (ts.row (k + ts.n)).r = false) →
+      infidelity stabOverlap (.dm (stabilizerDensity tt)) (.s ts) = infidelity stabOverlap (.s tt) (.s ts)) := by
+  have f := dm_fidelity_of_stabilizer_states tt ts hvt hvs hn
+  constructor
+  · simp only [infidelity, f, Except.map]
+  · intro hsign
+    have e := stabilizerToDensityPure_eq ts hsign
+    simp only [infidelity, e, f, Except.map]
 
 /-- the full statement (no sign hypothesis) — **false for the code as it stands**, see `d9_sign_vector_ignored` -/
 def infidelity_representation_independent_statement : Prop :=
@@ -163,7 +298,9 @@ theorem d9_sign_vector_ignored :
     infidelity stabOverlap (.s (Tab.ket0 1)) (.s (Tab.ket1 1)) = .ok (.val 1) ∧
     infidelity stabOverlap (.dm ket0dm) (.dm (stabilizerDensity (Tab.ket1 1))) = .ok (.val 1) := d9_witness
 
-/-- non-vacuity of the partial theorem: a Bell-type tableau (stabilizers `XX`, `ZZ`, no signs) meets its hypotheses -/
+/-- non-vacuity: a Bell-type tableau (stabilizers `XX`, `ZZ`, no signs) is valid (hypotheses of
+    `infidelity_representation_independent`, `stabilizer_density_is_pure_density_matrix`, `dm_fidelity_of_stabilizer_states`); the
+    evaluation agrees with the theorems -/
 def bellTab : Tab :=
   Tab.ofRows 2 #[
     PRow.ofArrays #[false,false] #[true,false] false false,
@@ -172,5 +309,12 @@ def bellTab : Tab :=
     PRow.ofArrays #[false,false] #[true,true] false false]
 example : isDensityMatrix (stabilizerDensity bellTab) = true ∧ isPure (stabilizerDensity bellTab) = true ∧
     stabOverlap bellTab bellTab = 1 ∧ stabOverlap bellTab (Tab.ket0 2) = 1/2 := by decide +kernel
+example : bellTab.isSymplectic = true ∧ (Tab.ket0 2).isSymplectic = true ∧ bellTab.n = (Tab.ket0 2).n ∧
+    ∀ k, k < (Tab.ket0 2).n → ((Tab.ket0 2).row (k + (Tab.ket0 2).n)).r = false := by decide
+
+/-- the hypotheses of `dm_fidelity_pure_branch_is_uhlmann` are met by the exact matrix of every valid tableau (first argument) -/
+example : ∃ ψ : Hilbert.Bits bellTab.n → ℂ, dotProduct (star ψ) ψ = 1 ∧
+    Hilbert.Rep bellTab.n (stabilizerDensity bellTab) (C17B.ketBra ψ) :=
+  C17B.stabilizerDensity_rep_ketBra bellTab ((Tab.isSymplectic_iff _).1 (by decide))
 
 end Graphiq.C17
